@@ -86,9 +86,6 @@ class DomainExporter:
         """
         same_type_constant = defaultdict(list)
         for const_name, constant in constants.items():
-            if const_name == "object":
-                continue
-
             same_type_constant[constant.type.name].append(const_name)
 
         types_strs = []
